@@ -14,7 +14,7 @@ import warnings
 
 from hypothesis import HealthCheck, Phase, given, seed as hseed, settings, strategies as st
 
-from vf import env
+from vf import env, hyp
 from vf.acc import Acc
 
 ID = "C17"
@@ -338,17 +338,8 @@ def run_shard(spec):
             if nv:
                 one(case)
     else:
-        @hseed(spec["seed"])
-        @settings(max_examples=spec["n"], database=None, deadline=None, phases=[Phase.generate],
-                  suppress_health_check=list(HealthCheck))
-        @given(random_formula(), st.sampled_from(sorted(CONTEXTS)))
-        def go(f, ctx):
-            if time.time() - t0 > spec["budget_s"]:
-                acc.budget_exhausted = True
-                return
-            one({"kind": "formula", "ctx": ctx, "f": f})
-
-        go()
+        hyp.run(st.tuples(random_formula(), st.sampled_from(sorted(CONTEXTS))),
+                lambda fc: one({"kind": "formula", "ctx": fc[1], "f": fc[0]}), spec["n"], spec["seed"], spec["budget_s"], acc, chunk=10)
     return acc
 
 
